@@ -3,10 +3,11 @@ CONSTANTS
   Accounts <- Acc3
   Denoms <- Den2
   CoinLists <- ListsQ
+  InitLists <- InitQ
   MetaDenoms = {"d1"}
   MetaVals = {"m1", "m2"}
   Cap = 2
 VIEW view
 INVARIANTS TypeOK Conservation
-PROPERTIES FailExactly MovesExactly SupplyExactly MetaFrame
+PROPERTIES FailExactly MovesExactly SupplyExactly MetaFrame InitExactly
 CHECK_DEADLOCK FALSE
